@@ -107,11 +107,21 @@ impl<'a> RegExp<'a> {
     }
 
     fn convert_expr_to_regex(expr: &Expression, config: &RegExpConfig) -> Option<Regex> {
+        // The check must use the same matching mode as the final regular expression.
+        let flag = if config.is_case_insensitive_matching {
+            "(?i)"
+        } else {
+            ""
+        };
         if config.is_output_colorized {
             let color_replace_regex = Regex::new("\u{1b}\\[(?:\\d+;\\d+|0)m").unwrap();
-            Self::compile_regex(&color_replace_regex.replace_all(&expr.to_string(), ""))
+            Self::compile_regex(&format!(
+                "{}{}",
+                flag,
+                color_replace_regex.replace_all(&expr.to_string(), "")
+            ))
         } else {
-            Self::compile_regex(&expr.to_string())
+            Self::compile_regex(&format!("{}{}", flag, expr))
         }
     }
 
